@@ -67,6 +67,8 @@ def _scalar_shapes(case):
         if s["verb"] in ("mutate", "summarize"):
             if any(_no_col(e) for _, e in s["items"]):
                 return True
+        if s["verb"] == "join" and s.get("cross"):
+            return True  # a cross join with a one-row operand broadcasts that operand's columns as scalars
         if s["verb"] == "mutate" and any(_frame_level_aggregate(e) for _, e in s["items"]):
             return True  # one value for the whole frame: Polars keeps such a column as a scalar, too
         for e in (s["exprs"] if s["verb"] == "expr" else step_exprs(s)):
